@@ -109,7 +109,7 @@ def step (st : TState) : TEvent → Res TState
     | last :: _ =>
       let id := st.aspects.length
       .ok { st with aspects := st.aspects ++ [{ jp := jp, aspect := aspect, frm := frm, to := to, input := input, gas := gas, value := value.getD 0 }]
-                    frames := st.frames.modify last (fun f => { f with jps := f.jps ++ [id], curJP := some jp }) }
+                    frames := st.frames.modify last (fun f => { f with jps := f.jps ++ [id], curJP := if jp = 0 then none else some jp }) }   -- `joinPoint = joinpoint`; the code tests `!= JoinPointRunType_Unknown` (0)
   | .aspectExit _ gasLeft ret err =>
     if st.onlyTop ∧ st.depth > 0 then .ok st else
     match st.stack with
